@@ -5,6 +5,7 @@ import (
 	"fmt"
 	"sort"
 
+	"github.com/pion/dtls/v3/zzverif/refimpl"
 	"github.com/pion/dtls/v3/zzverif/world"
 )
 
@@ -585,6 +586,22 @@ func genSmall(gi *genInfo) []*input {
 		for _, b := range [][]byte{{}, {0}, {0, 0}, {0, 16}, append([]byte{0, 16}, filler(16)...), append([]byte{0, 16}, filler(15)...)} {
 			seq++
 			g.raw(fmt.Sprintf("ack body=%x epoch=%d (unprotected)", b, e), plain12(26, e, seq, b))
+		}
+		// well-framed tls12_cid records whose body is shorter than anything record protection produces
+		// (explicit nonce 8, tag 8/16, MAC 20/32): under the victim's own connection ID once it is known, and
+		// under an arbitrary one of the right length
+		if !gi.vw.is13 && gi.vw.cidLen > 0 {
+			cids := [][]byte{filler(gi.vw.cidLen)}
+			if gi.fg != nil && len(gi.fg.cid) == gi.vw.cidLen {
+				cids = append(cids, gi.fg.cid)
+			}
+			for ci, cid := range cids {
+				for _, n := range []int{0, 1, 2, 3, 4, 5, 6, 7, 8, 9, 15, 16, 17, 23, 24, 25, 32, 33} {
+					seq++
+					g.raw(fmt.Sprintf("tls12_cid cid#%d body=%d epoch=%d (not protected)", ci, n, e),
+						append(refimpl.Header12(refimpl.ContentTypeCID, [2]byte{0xfe, 0xfd}, e, seq, cid, n), filler(n)...))
+				}
+			}
 		}
 	}
 	return g.out
